@@ -19,17 +19,17 @@ ASSUMPTIONS = ["migen tracer shim (names only)",
                "the modules are purely combinational (asserted: no sync statements), so driving the simulator's evaluator and "
                "running its comb propagation to the fixed point is the same computation as one clock cycle of Simulator.run",
                "ded must stay 0 for zero or one flipped bit (an 'uncorrectable' report on a correctable word counts as a failure)",
-               "quick tier sweeps all positions only for k <= 48 and k in {57, 58, 64, 121, 128, one of 65..120 chosen by the seed}; "
+               "quick tier sweeps all positions only for k <= 48 and k in {57, 58, 64, 121, 128, one of 65..104 chosen by the seed}; "
                "the other widths get a reduced set of fault points (parity bit, top bit, random positions and pairs); thorough "
                "sweeps every width"]
 FLOORS = {"quick": {"n_widths": 128, "n_widths_all_single_flips": 54, "single_flips": 8000, "double_flips": 4000, "clean_words": 800,
                     "disabled_vectors": 1100, "n_single_flip_positions": 2000, "parity_bit_single_flips": 550,
-                    "parity_bit_double_flips": 900, "sec_flag_checks": 12000, "ded_flag_checks": 12000, "data_checks": 9000,
+                    "parity_bit_double_flips": 800, "sec_flag_checks": 12000, "ded_flag_checks": 12000, "data_checks": 9000,
                     "disabled_passmap_checks": 50},
-          "thorough": {"n_widths": 128, "n_widths_all_single_flips": 128, "single_flips": 50000, "double_flips": 60000,
-                       "clean_words": 4000, "disabled_vectors": 8000, "n_single_flip_positions": 9000,
-                       "parity_bit_single_flips": 2000, "parity_bit_double_flips": 9000, "sec_flag_checks": 50000,
-                       "ded_flag_checks": 110000, "data_checks": 55000}}
+          "thorough": {"n_widths": 128, "n_widths_all_single_flips": 128, "single_flips": 28000, "double_flips": 32000,
+                       "clean_words": 2900, "disabled_vectors": 3300, "n_single_flip_positions": 9189,
+                       "parity_bit_single_flips": 700, "parity_bit_double_flips": 8000, "sec_flag_checks": 63000,
+                       "ded_flag_checks": 63000, "data_checks": 31000, "disabled_passmap_checks": 128}}
 SHARD_TIMEOUT = {"quick": 900, "thorough": 3000}
 N_SAMPLES = 6
 EXHAUSTIVE = {
@@ -371,12 +371,12 @@ def width_jobs(k, N, tier, seed, full):
         elif full:
             job(["rand:0"], [[]] + singles(N), full_single=True)
             job(["zero", "ones"], [[]])
-            npar = 12 if k <= 64 else 10
-            job(["rand:1"], sampled_pairs(N, rng, npar, 4, 6))
+            npar = 8
+            job(["rand:1"], sampled_pairs(N, rng, npar, 2, 4))
             job(["rand:0"], [[]] + [[p] for p in sorted(rng.sample(range(N), N - k + 3))], en=0)
         else:
-            pos = sorted(set([0, N - 1] + rng.sample(range(1, N - 1), 2 if k > 64 else 5)))
-            job(["rand:0"], [[]] + [[p] for p in pos] + sampled_pairs(N, rng, 1, 0 if k > 64 else 1, 1))
+            pos = sorted(set([0, N - 1] + rng.sample(range(1, N - 1), 1 if k > 64 else 5)))
+            job(["rand:0"], [[]] + [[p] for p in pos] + sampled_pairs(N, rng, 1, 0 if k > 64 else 1, 0 if k > 64 else 1))
     else:
         big = k > 64
         job(["rand:0", "zero" if k & 1 else "ones"] + ([] if big else ["ones" if k & 1 else "zero", "rand:1"]),
@@ -427,13 +427,13 @@ def split_job(job, N, target):
 def quick_full_widths(seed):
     """quick tier: widths whose every single flip position is swept (the others get a reduced set)."""
     rng = rng_for(seed, "C18/plan")
-    return set(range(1, 49)) | {57, 58, 64, 121, 128} | set(rng.sample(range(65, 121), 1))
+    return set(range(1, 49)) | {57, 58, 64, 121, 128, 65 + (seed * 7) % 40}
 
 
 def plan(tier, seed):
     q = tier == "quick"
     full = quick_full_widths(seed)
-    target = 9.0 if q else 45.0
+    target = 7.0 if q else 45.0
     items = []
     for k in range(1, KMAX + 1):
         N = code_bits(k)
